@@ -721,6 +721,10 @@ class Spec:
         """signature of the known finding an (F) clause stands for, if `why` names one"""
         return None
 
+    def too_big(self, x, quick):
+        """harvested instances the quick tier leaves to the thorough tier"""
+        return False
+
     def instances(self, rng, quick):
         return []
 
@@ -1757,6 +1761,192 @@ def unit4_specs():
 UNIT4_CLASSES = ["VirtualMemoryArray", "VirtualMemoryArrayList", "Pattern", "Patterns"]
 
 
+# ---------------------------------------------------------------------------------------------
+# unit 5: linked_layer.py
+# ---------------------------------------------------------------------------------------------
+def _L():
+    import importlib
+    return importlib.import_module("psd_tools.psd.linked_layer")
+
+
+def desc_block_tokens(b):
+    import desc_common as dc
+    if dc.block_kind(b) != 1:
+        raise NotRep("not a plain DescriptorBlock: %r" % type(b).__name__)
+    try:
+        return [dc.block_tokens(b, 1)]
+    except dc.NotRep as e:
+        raise NotRep(str(e))
+
+
+def linked_tokens(x):
+    try:
+        uuid = x.uuid.encode("macroman")
+    except (UnicodeError, AttributeError):
+        raise NotRep("uuid is not MacRoman text (C19)")
+
+    def ts(t):
+        t = tuple(t)
+        if len(t) != 6:
+            raise NotRep("timestamp is not a 6-tuple")
+        return [t_nat(t[0]), "4", *[t_nat(v) for v in t[1:5]], str(bits_of(t[5]))]
+    return [t_bytes(x.kind), t_nat(x.version), hx(uuid), *t_str(x.filename), t_bytes(x.filetype), t_bytes(x.creator),
+            *t_opt(x.filesize, lambda n: [t_nat(n)]), *t_opt(x.open_file, desc_block_tokens), *t_opt(x.linked_file, desc_block_tokens),
+            *t_opt(x.timestamp, ts), *t_opt(x.data, lambda b: [t_bytes(b)]), *t_opt(x.child_id, t_str),
+            *t_opt(x.mod_time, lambda v: [str(bits_of(v))]), *t_opt(x.lock_state, lambda n: [t_nat(n)])]
+
+
+def linked_excluded(x):
+    import desc_common as dc
+    C = _C()
+    T = C.LinkedLayerType
+    if not (1 <= x.version <= 7):
+        return "version-rejected-by-validator"
+    if len(x.filetype) != 4 or len(x.creator) != 4:
+        return "4s-field-not-4-bytes"
+    if has_pair(x.filename) or (x.child_id is not None and has_pair(x.child_id)):
+        return "adjacent-surrogate-pair (C19)"
+    for b in (x.open_file, x.linked_file):
+        if b is not None and dc._excluded_reason(b):
+            return dc._excluded_reason(b)
+    if x.kind == T.EXTERNAL:
+        if x.version <= 3 and x.timestamp is not None:
+            return "field-the-version-does-not-have"
+        if x.version == 1 and x.data is not None:
+            return "external-version-1-with-data"
+    else:
+        if x.linked_file is not None or x.timestamp is not None or x.filesize is not None:
+            return "field-of-another-kind"
+        if x.kind == T.ALIAS and x.data is not None:
+            return "alias-with-data"
+    if (x.child_id is not None) != (x.version >= 5) or (x.mod_time is not None) != (x.version >= 6) or \
+            (x.lock_state is not None) != (x.version >= 7):
+        return "field-the-version-does-not-have"
+    return None
+
+
+def gen_linked(rng, n):
+    import desc_common as dc
+    L, C, D = _L(), _C(), dc._D()
+    T = C.LinkedLayerType
+    g = dc.Gen(rng)
+
+    def blk():
+        body = g.descriptor(1 + rng.randrange(2))
+        return D.DescriptorBlock(body._items, name=body.name, classID=body.classID)
+    out = []
+    for i in range(n):
+        kind = [T.DATA, T.EXTERNAL, T.ALIAS][i % 3]
+        ver = 1 + (i // 3) % 7
+        data = bytes(rng.randrange(256) for _ in range(rng.choice([0, 1, 5, 33, 300])))
+        kw = dict(kind=kind, version=ver, uuid=rng.choice(["", "5a96c404-ab9c-1177-97ef-96ca454b82b7", "u" * 255, "caf\u00e9"]),
+                  filename=rng.choice(STRINGS[:13]), filetype=rng.choice([b"png ", b"\x00\x00\x00\x00", b"8BPB"]),
+                  creator=rng.choice([b"8BIM", b"\x00\x00\x00\x00"]), open_file=blk() if rng.random() < 0.4 else None)
+        if kind == T.EXTERNAL:
+            kw.update(linked_file=blk(), filesize=rng.choice([0, 1, 2 ** 64 - 1, rng.randrange(2 ** 40)]),
+                      timestamp=(rng.choice([0, 2024, 2 ** 32 - 1]), rng.randrange(256), rng.randrange(256), rng.randrange(256), rng.randrange(256),
+                                 rng.choice([0.0, 59.999, float_of(rng.randrange(2 ** 64))])) if ver > 3 else None,
+                      data=data if ver > 1 else None)
+        elif kind == T.DATA:
+            kw.update(data=data)
+        if ver >= 5:
+            kw["child_id"] = rng.choice(["", "c1", "\U0001F600"])
+        if ver >= 6:
+            kw["mod_time"] = rng.choice([0.0, 1.5, float_of(rng.randrange(2 ** 64))])
+        if ver >= 7:
+            kw["lock_state"] = rng.choice([0, 1, 255])
+        out.append(L.LinkedLayer(**kw))
+    return out
+
+
+class LinkedLayerSpec(Spec):
+    name = "LinkedLayer"
+    offsets = (0, 3, 4, 7, 8, 9, 12, 16, 20, 24, 32, 33)
+
+    def K(self):
+        return _L().LinkedLayer
+
+    def tokens(self, x):
+        return " ".join(linked_tokens(x))
+
+    def contexts(self):
+        return [(1, 1, None), (2, 4, None)]
+
+    def excluded(self, x, pad=None, rpad=None):
+        return linked_excluded(x)
+
+    def too_big(self, x, quick):
+        return quick and len(x.data or b"") > 300000
+
+    def instances(self, rng, quick):
+        L, C = _L(), _C()
+        T = C.LinkedLayerType
+        items = gen_linked(rng, 21 if quick else 420)
+        out = [("generated", x) for x in items]
+        ext = lambda v: copy.deepcopy(next(x for x in items if x.kind == T.EXTERNAL and x.version == v))
+        out.append(("boundary", L.LinkedLayer()))                        # the defaults: an alias of version 1
+        e = L.LinkedLayer(kind=T.ALIAS, data=b"\x01\x02\x03")
+        out.append(("excluded", e))
+        e = ext(1); e.data = b"\x01\x02\x03"
+        out.append(("excluded", e))
+        e = ext(4); e.child_id = "x"
+        out.append(("excluded", e))
+        e = ext(3); e.timestamp = (2024, 1, 2, 3, 4, 5.0)
+        out.append(("excluded", e))
+        e = ext(7); e.lock_state = None
+        out.append(("excluded", e))
+        e = L.LinkedLayer(kind=T.DATA, data=b"", filesize=5)
+        out.append(("excluded", e))
+        e = L.LinkedLayer(kind=T.DATA, data=b"", filetype=b"ab")
+        out.append(("excluded", e))
+        e = ext(2); e.filesize = 2 ** 64
+        out.append(("breaking", e))
+        e = ext(7); e.lock_state = 256
+        out.append(("breaking", e))
+        e = L.LinkedLayer(kind=T.DATA, data=b"", uuid="u" * 256)
+        out.append(("breaking", e))
+        return out
+
+
+class LinkedLayersSpec(Spec):
+    name = "LinkedLayers"
+    at_end = True
+    offsets = (0, 7, 8, 11, 12, 16)
+
+    def K(self):
+        return _L().LinkedLayers
+
+    def tokens(self, x):
+        return " ".join(t_list(list(x), linked_tokens))
+
+    def contexts(self):
+        return [(2, 4, None)]
+
+    def excluded(self, x, pad=None, rpad=None):
+        for it in x:
+            if linked_excluded(it):
+                return linked_excluded(it)
+        return None
+
+    def too_big(self, x, quick):
+        return quick and sum(len(it.data or b"") for it in x) > 300000
+
+    def instances(self, rng, quick):
+        K = self.K()
+        items = gen_linked(rng, 21 if quick else 210)
+        out = [("boundary", K([])), ("boundary", K(copy.deepcopy(items[:7])))]
+        for _ in range(3 if quick else 60):
+            out.append(("generated", K([copy.deepcopy(rng.choice(items)) for _ in range(rng.choice([1, 2, 4]))])))
+        return out
+
+
+def unit5_specs():
+    return [LinkedLayerSpec(), LinkedLayersSpec()]
+
+
+UNIT5_CLASSES = ["LinkedLayer", "LinkedLayers"]
+
+
 def harvest_by_class(files):
     """every element instance of the parsed fixtures, by exact class: {class: [instances]}"""
     import codec_common as cc
@@ -1789,7 +1979,7 @@ def run_units(ctx, specs, sink, seen_cls, fail_cls, excluded_log, label):
     ncases = nmut = 0
     for spec in specs:
         K = spec.K()
-        xs = [x for x in sink.get(K, []) if type(x) is K]
+        xs = [x for x in sink.get(K, []) if type(x) is K and not spec.too_big(x, ctx.quick)]
         harvested = distinct_instances(xs, spec.tokens, 40 if ctx.quick else None, ctx.rng)
         ctx.hist("payload_harvest_distinct", spec.name, len(harvested))
         a, b = run_spec(ctx, spec, [copy.deepcopy(x) for x in harvested], seen_cls, fail_cls, excluded_log)
@@ -1820,7 +2010,7 @@ def unit2_witnesses(ctx):
 # ---------------------------------------------------------------------------------------------
 # the check
 # ---------------------------------------------------------------------------------------------
-MODEL_CLASSES = list(UNIT1_CLASSES) + UNIT2_CLASSES + UNIT3_CLASSES + UNIT4_CLASSES
+MODEL_CLASSES = list(UNIT1_CLASSES) + UNIT2_CLASSES + UNIT3_CLASSES + UNIT4_CLASSES + UNIT5_CLASSES
 
 
 def run(ctx):
@@ -1853,6 +2043,7 @@ def _run(ctx):
     run_units(ctx, unit3_specs(ctx.rng, ctx.quick), sink, seen_cls, fail_cls, excluded_log, "unit3")
     unit3_witnesses(ctx)
     run_units(ctx, unit4_specs(), sink, seen_cls, fail_cls, excluded_log, "unit4")
+    run_units(ctx, unit5_specs(), sink, seen_cls, fail_cls, excluded_log, "unit5")
     seen_cls["MetadataSetting"] += seen_cls.get("MetadataSettings", 0)
     seen_cls["Annotation"] += seen_cls.get("Annotations", 0)
     ctx.extra["payload_points_excluded_by_WF (information; format-excluded, see notes)"] = dict(excluded_log)
@@ -1931,6 +2122,28 @@ def _run(ctx):
         "the empty table of a non-indexed pattern is re-read as None (known finding " + PATTERN_KNOWN + ", witness "
         "pattern_empty_color_table_not_roundtrip). Pixel compression of the channel bytes is C04's.",
     ]
+    ctx.notes += [
+        "Unit 5 (psd/linked_layer.py) is modelled and proved: LinkedLayer - every kind (DATA / EXTERNAL / ALIAS) x version (1..7), the "
+        "open-file and linked-file descriptor blocks (Props/C01Descriptor.lean), the time stamp (version > 3), the position of the "
+        "data (after the file size from version 3 on, last in version 2, none in version 1 of an external item), child id / "
+        "modification time / lock state (version >= 5 / 6 / 7) - and LinkedLayers (one Q length block with padding 4 per item, while "
+        "is_readable(fp, 8): at the end of a stream): linked_layer_roundtrip, linked_layers_roundtrip_at_end, the _rewrite_identical "
+        "and _written_is_length theorems, tagged_block_linked_layers; ties unit5_tied (LinkedLayerType, the range_ validator of "
+        "version, registry), linked_conditions_tied (every `if` test of read / write, from the AST), unit5_calls_tied. WF (iii): a "
+        "field is present exactly when the kind / version has it (witnesses linked_data_not_stored, "
+        "linked_child_id_below_version5_not_read, replayed as excluded instances). Outside the model: a field the writer "
+        "dereferences while it is None (AttributeError / TypeError instead of struct.error) - not generated.",
+    ]
+    # the skeleton's notes written before the payload classes were brought in
+    ctx.notes[:] = [n.replace("Stated in DESIGN, not proved here: codec laws of the payload classes (descriptors, effects, patterns, linked "
+                              "layers, vector data, adjustments, image-resource payloads), LayerInfoBlock (Lr16/Lr32) as a structured payload.",
+                              "Stated in DESIGN, not proved here: codec laws of the remaining payload classes (vector data, adjustments, "
+                              "filter effects, type tool / placed layer / smart object data, engine data, image-resource payloads); see "
+                              "model_coverage.") for n in ctx.notes]
+    ctx.assumptions[:] = [a.replace("payload classes (tagged-block data, image-resource data, effects, patterns, ...) are opaque bytes in "
+                                    "the model", "the payload classes listed under model_coverage as opaque (vector data, adjustments, "
+                                    "filter effects, type tool / placed layer / smart object data, image-resource payloads, ...) are "
+                                    "opaque bytes in the model") for a in ctx.assumptions]
     ctx.assumptions += [
         "payload classes: doubles are compared as 64-bit patterns; pascal strings (Annotation) are their MacRoman bytes (C19)",
         "payload classes: CPython's fp.read(n) raises OverflowError for n >= 2**63 (ssize_t); the cursor readers of Model/Codec.lean "
